@@ -149,7 +149,7 @@ LAYOUT_TEMPLATES = [
 
 REF_KINDS = ["none", "inline", "external_rel", "external_abs", "missing", "eisdir", "eacces", "bad_base64",
              "bad_json", "garbage_file", "index_inline", "index_external", "empty_url", "no_comma", "charset_inline",
-             "block_comment", "two_comments", "huge", "empty_file", "comment_midfile", "long_missing", "long_external"]
+             "block_comment", "two_comments", "huge", "empty_file", "comment_midfile", "long_missing", "long_external", "first_after_code"]
 
 # 63 ASCII bytes, then a two-byte character straddling byte 64
 LONG_URL = "m" * 63 + "\u00e9/\u4e2d\u6587-bundle.js.map"
@@ -159,6 +159,9 @@ def make_case(rng, code, kind, chain, comments, style, file="/w/src/app.js", par
     """-> case dict with code (+ reference), reader files, expected usable original map tokens"""
     cfg = dict(sp.FULL_CFG, chainSourceMap=chain, comments=comments)
     reader = {"parent": parent, "files": {}}
+    if kind == "first_after_code":
+        # where the references sit in the text must not matter: vary the offsets
+        code = " " * rng.randrange(0, 14) + code
     omap_text, otoks = rand_orig_map(rng, code.rstrip("\n"), style)
     usable = False
     ref = None
@@ -216,6 +219,15 @@ def make_case(rng, code, kind, chain, comments, style, file="/w/src/app.js", par
         ref = "//# sourceMappingURL=data:application/json;base64"
     elif kind == "block_comment":
         ref = "/*# sourceMappingURL=data:application/json;base64," + b64 + " */"
+        usable = True
+    elif kind == "first_after_code":
+        # a reference to ANOTHER map right after the code of an earlier line, and the file's own reference at the end
+        other = json.dumps({"version": 3, "sources": ["not-this-one.ts"], "names": [], "mappings": "AAAA;AACA;AACA;AACA"})
+        lines = body.split("\n")
+        cr = "\r" if lines[0].endswith("\r") else ""
+        lines[0] = lines[0][:len(lines[0]) - len(cr)] + " //# sourceMappingURL=data:application/json;base64," + base64.b64encode(other.encode()).decode() + cr
+        body = "\n".join(lines)
+        ref = "//# sourceMappingURL=data:application/json;base64," + b64
         usable = True
     elif kind == "two_comments":
         ref = "//# sourceMappingURL=first.map\n//# sourceMappingURL=data:application/json;base64," + b64
